@@ -57,6 +57,18 @@ Definition trunc_dec (d : dec) : Z :=
   | _ => 0
   end.
 
+(* funToInt: the number truncated toward zero (0 for NaN and the infinities); within int64 the result is built
+   from the integer, beyond it the decimal itself is truncated *)
+Definition to_int_dec (d : dec) : dec :=
+  match to_i64_opt d with
+  | Some a => dec_of_Z a
+  | None =>
+    match d with
+    | Fin n c e => if 0 <=? e then Fin n c e else Fin n (c / pow10 (- e)) 0
+    | _ => dec_zero
+    end
+  end.
+
 (* the default branch of convTypeToTarget: reflect convertibility of the dynamic type *)
 Definition reflect_convert (v : value) (t : gotype) : option value :=
   match v, t with
@@ -65,7 +77,6 @@ Definition reflect_convert (v : value) (t : gotype) : option value :=
   | VNum _, TDec => Some v
   | VGoInt _ n, TInt k => Some (VGoInt k (wrap_int k n))
   | VGoInt _ n, TFloat _ => Some (VGoFloat (dec_to_string (dec_of_Z n)))
-  | VGoInt _ n, TString => Some (VStr (encode_rune n))
   | VGoFloat s, TFloat _ => Some v
   | VGoFloat s, TInt k => Some (VGoInt k (wrap_int k (trunc_dec (dec_of_string s))))
   | _, _ => None
@@ -83,7 +94,6 @@ Fixpoint conv_to (t : gotype) (v : value) : outcome value :=
          | [] => Ok []
          | x :: r =>
            match conv_to et x with
-           | Ok VNull => Panic               (* reflect.Append with the zero Value *)
            | Ok x' => match go r with Ok r' => Ok (x' :: r') | Err => Err | Panic => Panic | Unk => Unk end
            | Err => Err
            | Panic => Panic
@@ -103,7 +113,7 @@ Fixpoint conv_to (t : gotype) (v : value) : outcome value :=
          | (k, x) :: r =>
            match conv_to et x with
            | Ok x' => match go r with
-                      | Ok r' => Ok (match x' with VNull => r' | _ => (k, x') :: r' end)
+                      | Ok r' => Ok ((k, x') :: r')
                       | Err => Err | Panic => Panic | Unk => Unk end
            | Err => Err
            | Panic => Panic
@@ -121,7 +131,7 @@ Fixpoint conv_to (t : gotype) (v : value) : outcome value :=
         match v, t with
         | VNum d, TInt k =>
           (* out-of-range float-to-int conversion is implementation-defined in Go *)
-          if is_finite d && (wrap_int k (trunc_dec d) =? trunc_dec d) then Ok (VGoInt k (trunc_dec d)) else Unk
+          if is_finite d && (wrap_int k (trunc_dec d) =? trunc_dec d) then Ok (VGoInt k (trunc_dec d)) else Err
         | VNum d, TFloat _ => Ok (VGoFloat (dec_to_string d))
         | _, _ => Err
         end
@@ -157,7 +167,7 @@ Definition gi (n : Z) : value := VGoInt GInt n.
 Definition iface_builtin (name : list Z) (v : value) : outcome value :=
   if name_is name "finite" then Ok (VNum dec_zero)
   else if name_is name "toString" then (match conv_to_string v with Some s => Ok (VStr s) | None => Unk end)
-  else if name_is name "toInt" then (match to_i64_opt (conv_to_number v) with Some a => Ok (VNum (dec_of_Z a)) | None => Unk end)
+  else if name_is name "toInt" then Ok (VNum (to_int_dec (conv_to_number v)))
   else if name_is name "toFloat" then Ok (VNum (conv_to_number v))
   else Err.
 
@@ -187,7 +197,7 @@ Definition builtin_apply (local_off : Z) (name : list Z) (args : list value) : o
     else if name_is name "roundBank" then Ok (VNum (round_to_int 1 d))
     else if name_is name "finite" then Ok (VNum (if is_finite d then d else dec_zero))
     else if name_is name "toString" then (if is_nan d then Unk else Ok (VStr (dec_to_string d)))   (* the digits after "NaN" (the library prints a diagnostic payload) are not modelled *)
-    else if name_is name "toInt" then (match to_i64_opt d with Some a => Ok (VNum (dec_of_Z a)) | None => Unk end)
+    else if name_is name "toInt" then Ok (VNum (to_int_dec d))
     else if name_is name "toFloat" then Ok (VNum d)
     else if name_is name "max" || name_is name "min" then Ok (VNum d)
     else if name_is name "sqrt" then Ok (VNum (dec_sqrt16 d))   (* the correctly rounded root; the library is within one unit of the 16th digit of it *)
@@ -219,7 +229,7 @@ Definition builtin_apply (local_off : Z) (name : list Z) (args : list value) : o
     else if name_is name "trim" then Ok (VStr (if all_ascii s then trim_space s else trim_utf8 s))
     else if name_is name "finite" then Ok (VNum dec_zero)
     else if name_is name "toString" then Ok (VStr s)
-    else if name_is name "toInt" then (match to_i64_opt (num_of_text s) with Some a => Ok (VNum (dec_of_Z a)) | None => Unk end)
+    else if name_is name "toInt" then Ok (VNum (to_int_dec (num_of_text s)))
     else if name_is name "toFloat" then Ok (VNum (num_of_text s))
     else Err
   | [VStr s; VStr ps; VGoInt _ l] =>
